@@ -302,7 +302,24 @@ def run_recheck(case):
                 ck = Checker(out, path)
                 stream = [[bool(chunk == piece), int(size)] for chunk, piece, _, size in ck.iter_hashes()]
                 res = ck._result
-                res2 = Checker(out, path).results()
+                proto = case.get("proto", "fresh")
+                if proto == "abandon":        # a walk given up after a few pieces (cancel), then the figure is asked for
+                    ck2 = Checker(out, path)
+                    it = ck2.iter_hashes()
+                    for _ in range(1 + case["id"] % 3):
+                        if next(it, None) is None:
+                            break
+                    if case["id"] % 2:
+                        it.close()
+                    res2 = ck2.results()
+                elif proto == "twice":        # asked twice
+                    ck2 = Checker(out, path)
+                    ck2.results()
+                    res2 = ck2.results()
+                elif proto == "after_iter":   # asked on the object that was just iterated
+                    res2 = ck.results()
+                else:
+                    res2 = Checker(out, path).results()
                 rec["nostream"] = False
             rec["stream"] = stream
             rec["ppm"] = int(round(float(res) * 1000000))
